@@ -112,6 +112,30 @@ func compareTree(s *store.Store, model map[string][]byte) error {
 	return nil
 }
 
+// compareState scans the whole latest state and compares it with the model.
+func compareState(s *store.Store, model map[string][]byte) error {
+	it, err := s.Iterator(nil)
+	if err != nil {
+		return err
+	}
+	defer it.Close()
+	n := 0
+	for ; it.Valid(); it.Next() {
+		want, ok := model[string(it.Key())]
+		if !ok {
+			return fmt.Errorf("key %x is served (value %x) but is not in the committed set", it.Key(), it.Value())
+		}
+		if !bytes.Equal(want, it.Value()) {
+			return fmt.Errorf("key %x is served with value %x, committed value %x", it.Key(), it.Value(), want)
+		}
+		n++
+	}
+	if n != len(model) {
+		return fmt.Errorf("%d keys served, %d in the committed set", n, len(model))
+	}
+	return nil
+}
+
 type caseState struct {
 	pool   *sm.KeyPool
 	hot    []int // pool indexes this case prefers (so that overwrites and deletes hit)
@@ -351,6 +375,24 @@ func TestC08Store(t *testing.T) {
 			}
 			c.model = pending
 			lastRoot = r
+			// now and then push the data through pebble's flush + compaction (what MaybeCompact does periodically): the
+			// committed state and its root must not depend on where pebble keeps the entries
+			if rapid.IntRange(0, 4).Draw(t, "compact") == 0 {
+				if err := s.DB().Flush(); err != nil {
+					t.Fatalf("flush: %v", err)
+				}
+				if err := s.CompactAll(s.Version()); err != nil {
+					t.Fatalf("compact: %v", err)
+				}
+				s.Reset() // fresh snapshots, as after the next commit
+				ec.Class("flush+compact")
+			}
+		}
+		// the root is a commitment to THE STATE: the state the store serves must be exactly the set the root was compared with
+		if lastRoot != nil {
+			if err := compareState(s, c.model); err != nil {
+				t.Fatalf("served state differs from the set its root commits to: %v", err)
+			}
 		}
 		// structural identity of the persisted tree with the canonical one
 		if lastRoot != nil {
